@@ -125,12 +125,10 @@ def r1b(ctx):
                        'N = start - previous end - 1; the partial-read generator fetches exactly [position, position + M) '
                        'for each M and advances the reference position on every M and N')
 def r2(ctx):
-    try:
+    sem = _cigar_by_interpretation(ctx)
+    if sem is None:
         _r2_cigar_structural(ctx)
-    except AnalysisError:
-        sem = _cigar_by_interpretation(ctx)
-        if sem is None:
-            raise
+    else:
         okc, ncase, wit = sem
         ctx.counters['abstract_cases'] += ncase
         f_ = ctx.fn(MOLECULE, 'Molecule.get_CIGAR')
@@ -158,7 +156,8 @@ def _cigar_by_interpretation(ctx):
                     if isinstance(call.func, ast.Attribute) and call.func.attr == 'get_aligned_blocks':
                         return [tuple(x) for x in combo]
                     return NotImplemented
-                got = run_function(f, ['<self>'], env={}, budget=40000, call_hook=hook)
+                # the span of the molecule is NOT the span of its aligned blocks (clipped / unaligned read ends belong to the span only)
+                got = run_function(f, ['<self>'], env={'self.spanStart': -5, 'self.spanEnd': 99, 'self.chromosome': 'chr1'}, budget=40000, call_hook=hook)
                 want_c = []
                 for i, (a, b) in enumerate(combo):
                     if i:
@@ -359,7 +358,33 @@ def r3(ctx):
 @rule('C15', 'C15-R4', 'pseudo-reads: default CIGAR is len(sequence)M, sample / site / UMI / fragment-count tags are written to '
                        'every pseudo-read, and a value that may be None is never subscripted unguarded')
 def r4(ctx):
+    return _r4_impl(ctx)
+
+
+def _r4_placed_by_name(ctx, f):
+    """the pseudo-read is created against the header of the TARGET file: it is placed by contig name (resolved against that header), never by the numeric
+    reference id of a source read - an index into the header of the file the reads came from, which need not list the contigs in the same order"""
+    mk = [s_ for s_ in walk_no_nested(f) if isinstance(s_, ast.Assign) and isinstance(s_.value, ast.Call) and (dotted(s_.value.func) or '').endswith('AlignedSegment') and isinstance(s_.targets[0], ast.Name)]
+    if len(mk) != 1:
+        ctx.emit('C15-R4', True, MOLECULE, f, 'the pseudo-read is not constructed in get_consensus_read itself: placement not inspected', key='pseudo-read-placed-by-name', nontrivial=False)
+        return
+    v = mk[0].targets[0].id
+    by_name = [s_ for s_ in walk_no_nested(f) if isinstance(s_, ast.Assign) and any(src(t_) == f'{v}.reference_name' for t_ in s_.targets)]
+    by_id = [s_ for s_ in walk_no_nested(f) if isinstance(s_, ast.Assign) and any(src(t_) in (f'{v}.reference_id', f'{v}.tid') for t_ in s_.targets)]
+    bad = [s_ for s_ in by_id if not any(isinstance(c_, ast.Call) and isinstance(c_.func, ast.Attribute) and c_.func.attr in ('get_tid', 'gettid') and 'target' in src(c_.func.value) for c_ in ast.walk(s_.value))]
+    if bad:
+        ctx.emit('C15-R4', False, MOLECULE, bad[0], f'`{src(bad[0])[:120]}` places the pseudo-read by a numeric reference id that is not looked up in the target header: ids index the header of the file the '
+                 f'source reads came from, in a target file with another contig order the consensus record lands on another contig', key='pseudo-read-placed-by-name',
+                 what='get_consensus_read: pseudo-read placed by the reference id of a source read')
+    elif by_name or by_id:
+        ctx.emit('C15-R4', True, MOLECULE, (by_name or by_id)[0], 'the pseudo-read is placed by contig name / an id looked up in the target header', key='pseudo-read-placed-by-name')
+    else:
+        ctx.emit('C15-R4', False, MOLECULE, mk[0], 'no placement (reference_name / reference_id) of the pseudo-read found', key='pseudo-read-placed-by-name', undecided=True)
+
+
+def _r4_impl(ctx):
     f = ctx.fn(MOLECULE, 'Molecule.get_consensus_read')
+    _r4_placed_by_name(ctx, f)
     # path-based: with no CIGAR supplied, the CIGAR stored on the pseudo-read is f'{len(S)}M' for the very S stored as its sequence; a
     # supplied CIGAR is stored unchanged
     from ..util import explore, mk_atoms
@@ -738,6 +763,38 @@ def r7(ctx):
             ctx.emit('C15-R7', fresh, MOLECULE, c, 'base calls come from get_base_confidence_dict() evaluated for this request' if fresh else f'source of the base calls `{src(e)[:60]}` not recognised',
                      key='calls-from-current-molecule', undecided=not fresh)
     shared.memo_invalidation(ctx, 'C15-R7', MOLECULE, 'Molecule', ['deduplicate_majority'], what='Molecule.deduplicate_majority')
+
+
+@rule('C15', 'C15-R8', 'a requested consensus reaches the workers: the option dictionary the multi-process entry point receives from its caller (it carries consensus_mode) is handed to the '
+                       'task generator with all its entries - it may be created when missing and extended, but is never re-bound to a fresh dictionary that leaves the '
+                       "caller's entries out (the workers would fall back to writing the plain source reads)")
+def r8(ctx):
+    from .slots import BTM
+    f = ctx.fn(BTM, 'tag_multiome_multi_processing')
+    gens = [c for c in walk_no_nested(f) if isinstance(c, ast.Call) and last_name(dotted(c.func) or '') == 'generate_tasks']
+    ctx.need('C15-R8', len(gens), 1, 'task generator call')
+    a = next((k.value for k in gens[0].keywords if k.arg == 'additional_args'), None)
+    params = {x.arg for x in f.args.args + f.args.kwonlyargs}
+    if not (isinstance(a, ast.Name) and a.id in params):
+        ctx.emit('C15-R8', False, BTM, gens[0], f'generate_tasks receives additional_args=`{src(a) if a is not None else None}`, not the parameter of the entry point', key='consensus-options-forwarded', undecided=True)
+        return
+    v = a.id
+    bad, n = [], 0
+    for st in walk_no_nested(f):
+        if isinstance(st, ast.Assign) and any(isinstance(t, ast.Name) and t.id == v for t in st.targets):
+            n += 1
+            if v in names_in(st.value):
+                continue                      # built from itself: dict(v, ...), {**v, ...}, v or {}
+            conds = reach_conds(f.body, st) or []
+            if any((src(t_).replace(' ', '') in (f'{v}isNone', f'not{v}') and pol) or (src(t_).replace(' ', '') == f'{v}isnotNone' and not pol) for t_, pol in conds):
+                continue                      # created because the caller gave none
+            bad.append(st)
+    for st in bad[:1]:
+        ctx.emit('C15-R8', False, BTM, st, f'`{src(st)[:120]}` re-binds the option dictionary of the caller to a new one: whatever the caller put in (consensus_mode=majority when a consensus was '
+                 f'requested) does not reach the tagging tasks, which then write the source reads instead of consensus records', key='consensus-options-forwarded',
+                 what='tag_multiome_multi_processing: the caller\'s task options (consensus mode) are dropped')
+    if not bad:
+        ctx.emit('C15-R8', True, BTM, gens[0], f'`{v}` reaches generate_tasks with the entries of the caller ({n} re-bindings, all extend it or create it when missing)', key='consensus-options-forwarded')
 
 
 META = {
